@@ -58,6 +58,9 @@ def tasks(tier):
     # the mixed (u, p, J) wrappers around a history-dependent material: the last item of gradient() is what the body stores as trial state
     ts.append(("mixed-wrapper state", "run_included", dict(modname="c03", fname="run_threefield", kwargs=dict(blocks="Fp+FJ+pp+pJ+JJ"), oid="C15.O9", select_oid="C03.O4",
                                                           why="state variables change ... exactly to the values of the converged iterate: NearlyIncompressible / ThreeFieldVariation must hand out the new state their inner material computed, not the stored one")))
+    # the ramp a user hands to a Step is usually built with math.linsteps: the i-th value, and the number of substeps, are its output
+    ts.append(("ramp table from linsteps", "run_included", dict(modname="c17", fname="run_group", kwargs=dict(group="spatial", tier=tier), oid="C15.O10", select_oid="C17.O6", select_construct="linsteps",
+                                                               why="the i-th generated substep applies the i-th value of every ramp: the table math.linsteps builds (counts per segment, a short count list continued with its last entry, end point) is the load history the step walks")))
     return ts
 
 
@@ -161,10 +164,15 @@ def run_ramp_table(col):
     finish_info(col, it)
 
 
-def run_included(col, modname, fname, kwargs, oid, why, select_oid=None):
+def run_included(col, modname, fname, kwargs, oid, why, select_oid=None, select_construct=None):
     from ..common import include
 
-    include(col, modname, fname, kwargs, oid, why, select_oid=select_oid)
+    sel = None
+    if select_construct is not None:
+        sel = lambda o: select_construct in o.get("construct", "") or o.get("oid") == "task"
+    n = include(col, modname, fname, kwargs, oid, why, select=sel, select_oid=select_oid)
+    if select_construct is not None and n < 5:
+        col.undecided(oid, "%s.%s" % (modname, fname), "anchor", "fewer than five included obligations mention %r" % select_construct)
 
 
 def run_flow(col):
